@@ -311,4 +311,250 @@ theorem findBackwards_nearest (eq : Char → Char → Bool) (d : Doc) (sub : Tex
     | true => rw [matchAt_reverse' hp2 hm] at hno; cases hno
 example : findBackwards (· == ·) ⟨['a', 'b', 'a', 'b', 'c'], 5⟩ ['a', 'b'] false 1 = some (-3) := by decide
 
+/-! ## 11. the count-th match of `find` -/
+
+/-- distance between the starts of two consecutive matches: the needle length, 1 for the empty needle -/
+def stepLen (sub : Text) : Nat := max 1 sub.length
+
+theorem finditerGo_chain (eq : Char → Char → Bool) (sub : Text) (fuel off : Nat) (t : Text)
+    (hf : t.length < fuel) (k a : Nat) (ha : (finditerGo eq sub fuel off t)[k]? = some a) :
+    (∀ b, (finditerGo eq sub fuel off t)[k + 1]? = some b →
+        a + stepLen sub ≤ b ∧
+        ∀ j, a + stepLen sub ≤ j → j < b → matchAt eq sub (t.drop (j - off)) = false) ∧
+    ((finditerGo eq sub fuel off t)[k + 1]? = none →
+        ∀ j, a + stepLen sub ≤ j → j ≤ off + t.length → matchAt eq sub (t.drop (j - off)) = false) := by
+  induction fuel generalizing off t k with
+  | zero => omega
+  | succ f ih =>
+    -- the "no match here, move one character on" step, shared by two branches
+    have shift : ∀ c cs, t = c :: cs →
+        (finditerGo eq sub (f + 1) off t = finditerGo eq sub f (off + 1) cs) →
+        (∀ b, (finditerGo eq sub (f + 1) off t)[k + 1]? = some b →
+          a + stepLen sub ≤ b ∧
+          ∀ j, a + stepLen sub ≤ j → j < b → matchAt eq sub (t.drop (j - off)) = false) ∧
+        ((finditerGo eq sub (f + 1) off t)[k + 1]? = none →
+          ∀ j, a + stepLen sub ≤ j → j ≤ off + t.length → matchAt eq sub (t.drop (j - off)) = false) := by
+      intro c cs ht hL
+      rw [hL] at ha ⊢
+      have hoff : off + 1 ≤ a := (finditerGo_sound eq sub f (off + 1) cs a (List.mem_of_getElem? ha)).1
+      obtain ⟨i1, i2⟩ := ih (off + 1) cs (by rw [ht] at hf; simp at hf; omega) k ha
+      have hd : ∀ j, off + 1 ≤ j → t.drop (j - off) = cs.drop (j - (off + 1)) := by
+        intro j hj
+        have : j - off = (j - (off + 1)) + 1 := by omega
+        rw [ht, this, List.drop_succ_cons]
+      refine ⟨?_, ?_⟩
+      · intro b hb
+        obtain ⟨g1, g2⟩ := i1 b hb
+        refine ⟨g1, ?_⟩
+        intro j hj1 hj2
+        rw [hd j (by unfold stepLen at hj1; omega)]
+        exact g2 j hj1 hj2
+      · intro hn j hj1 hj2
+        rw [hd j (by unfold stepLen at hj1; omega)]
+        exact i2 hn j hj1 (by rw [ht] at hj2; simp at hj2; omega)
+    by_cases hm : matchAt eq sub t = true
+    · -- a match at the current position
+      have hml := matchAt_length hm
+      by_cases hemp : sub.isEmpty = true
+      · -- empty needle: next search one character on
+        have hsub : sub = [] := by simpa using hemp
+        cases t with
+        | nil =>
+          have hL : finditerGo eq sub (f + 1) off [] = [off] := by
+            unfold finditerGo; simp [hm, hemp]
+          rw [hL] at ha ⊢
+          cases k with
+          | zero =>
+            simp at ha; subst ha
+            refine ⟨by intro b hb; simp at hb, ?_⟩
+            intro _ j hj1 hj2
+            unfold stepLen at hj1; simp at hj2; omega
+          | succ k => simp at ha
+        | cons c cs =>
+          have hL : finditerGo eq sub (f + 1) off (c :: cs) = off :: finditerGo eq sub f (off + 1) cs := by
+            conv => lhs; unfold finditerGo
+            simp [hm, hemp]
+          cases k with
+          | zero =>
+            rw [hL] at ha ⊢
+            simp at ha; subst ha
+            obtain ⟨f1, f2⟩ := finditerGo_first eq sub f (off + 1) cs (by simp at hf; omega)
+            have hstep : stepLen sub = 1 := by simp [stepLen, hsub]
+            have hd : ∀ j, off + 1 ≤ j → (c :: cs).drop (j - off) = cs.drop (j - (off + 1)) := by
+              intro j hj
+              have : j - off = (j - (off + 1)) + 1 := by omega
+              rw [this, List.drop_succ_cons]
+            refine ⟨?_, ?_⟩
+            · intro b hb
+              simp only [List.getElem?_cons_succ] at hb
+              have hbge := (finditerGo_sound eq sub f (off + 1) cs b (List.mem_of_getElem? hb)).1
+              refine ⟨by omega, ?_⟩
+              intro j hj1 hj2
+              rw [hd j (by omega)]
+              cases hl : finditerGo eq sub f (off + 1) cs with
+              | nil => rw [hl] at hb; simp at hb
+              | cons s rest =>
+                rw [hl] at hb; simp at hb; subst hb
+                exact f1 s rest hl _ (by omega)
+            · intro hn j hj1 hj2
+              simp only [List.getElem?_cons_succ] at hn
+              rw [hd j (by omega)]
+              have hnil : finditerGo eq sub f (off + 1) cs = [] := by
+                cases hl : finditerGo eq sub f (off + 1) cs with
+                | nil => rfl
+                | cons s rest => rw [hl] at hn; simp at hn
+              exact f2 hnil _ (by simp at hj2; omega)
+          | succ k =>
+            rw [hL] at ha ⊢
+            simp only [List.getElem?_cons_succ] at ha ⊢
+            have hoff : off + 1 ≤ a := (finditerGo_sound eq sub f (off + 1) cs a (List.mem_of_getElem? ha)).1
+            obtain ⟨i1, i2⟩ := ih (off + 1) cs (by simp at hf; omega) k ha
+            have hd : ∀ j, off + 1 ≤ j → (c :: cs).drop (j - off) = cs.drop (j - (off + 1)) := by
+              intro j hj
+              have : j - off = (j - (off + 1)) + 1 := by omega
+              rw [this, List.drop_succ_cons]
+            refine ⟨?_, ?_⟩
+            · intro b hb
+              obtain ⟨g1, g2⟩ := i1 b hb
+              refine ⟨g1, ?_⟩
+              intro j hj1 hj2
+              rw [hd j (by unfold stepLen at hj1; omega)]
+              exact g2 j hj1 hj2
+            · intro hn j hj1 hj2
+              rw [hd j (by unfold stepLen at hj1; omega)]
+              exact i2 hn j hj1 (by simp at hj2; omega)
+      · -- non-empty needle: next search after the match
+        have hpos : 0 < sub.length := by
+          cases sub with
+          | nil => simp at hemp
+          | cons _ _ => simp
+        have hstep : stepLen sub = sub.length := by unfold stepLen; omega
+        have hL : finditerGo eq sub (f + 1) off t =
+            off :: finditerGo eq sub f (off + sub.length) (t.drop sub.length) := by
+          conv => lhs; unfold finditerGo
+          simp [hm, hemp]
+        have hd : ∀ j, off + sub.length ≤ j →
+            t.drop (j - off) = (t.drop sub.length).drop (j - (off + sub.length)) := by
+          intro j hj
+          rw [List.drop_drop]; congr 1; omega
+        have hf' : (t.drop sub.length).length < f := by simp only [List.length_drop]; omega
+        cases k with
+        | zero =>
+          rw [hL] at ha ⊢
+          simp at ha; subst ha
+          obtain ⟨f1, f2⟩ := finditerGo_first eq sub f (off + sub.length) (t.drop sub.length) hf'
+          refine ⟨?_, ?_⟩
+          · intro b hb
+            simp only [List.getElem?_cons_succ] at hb
+            have hbge := (finditerGo_sound eq sub f _ _ b (List.mem_of_getElem? hb)).1
+            refine ⟨by omega, ?_⟩
+            intro j hj1 hj2
+            rw [hd j (by omega)]
+            cases hl : finditerGo eq sub f (off + sub.length) (t.drop sub.length) with
+            | nil => rw [hl] at hb; simp at hb
+            | cons s rest =>
+              rw [hl] at hb; simp at hb; subst hb
+              exact f1 s rest hl _ (by omega)
+          · intro hn j hj1 hj2
+            simp only [List.getElem?_cons_succ] at hn
+            rw [hd j (by omega)]
+            have hnil : finditerGo eq sub f (off + sub.length) (t.drop sub.length) = [] := by
+              cases hl : finditerGo eq sub f (off + sub.length) (t.drop sub.length) with
+              | nil => rfl
+              | cons s rest => rw [hl] at hn; simp at hn
+            exact f2 hnil _ (by simp only [List.length_drop]; omega)
+        | succ k =>
+          rw [hL] at ha ⊢
+          simp only [List.getElem?_cons_succ] at ha ⊢
+          have hoff := (finditerGo_sound eq sub f _ _ a (List.mem_of_getElem? ha)).1
+          obtain ⟨i1, i2⟩ := ih (off + sub.length) (t.drop sub.length) hf' k ha
+          refine ⟨?_, ?_⟩
+          · intro b hb
+            obtain ⟨g1, g2⟩ := i1 b hb
+            refine ⟨g1, ?_⟩
+            intro j hj1 hj2
+            rw [hd j (by omega)]
+            exact g2 j hj1 hj2
+          · intro hn j hj1 hj2
+            rw [hd j (by omega)]
+            exact i2 hn j hj1 (by simp only [List.length_drop]; omega)
+    · -- no match here
+      cases t with
+      | nil =>
+        have hL : finditerGo eq sub (f + 1) off [] = [] := by
+          unfold finditerGo; simp [hm]
+        rw [hL] at ha; simp at ha
+      | cons c cs =>
+        exact shift c cs rfl (by conv => lhs; unfold finditerGo
+                                 simp [hm])
+
+theorem finditer_chain (eq : Char → Char → Bool) (sub t : Text) (k a : Nat)
+    (ha : (finditer eq sub t)[k]? = some a) :
+    (∀ b, (finditer eq sub t)[k + 1]? = some b →
+        a + stepLen sub ≤ b ∧
+        ∀ j, a + stepLen sub ≤ j → j < b → matchAt eq sub (t.drop j) = false) ∧
+    ((finditer eq sub t)[k + 1]? = none →
+        ∀ j, a + stepLen sub ≤ j → j ≤ t.length → matchAt eq sub (t.drop j) = false) := by
+  have := finditerGo_chain eq sub (t.length + 1) 0 t (by omega) k a ha
+  simpa [finditer] using this
+
+/-- **the count-th match of `find`**: if `find(count=k)` reports `r`, then `find(count=k+1)` reports
+    the nearest occurrence that starts at least one needle length (one character for the empty
+    needle) after `r` — non-overlapping, nothing skipped — and reports `None` only if there is no
+    such occurrence.  With `find_nearest` (count = 1) this determines every count. -/
+theorem findIn_next (eq : Char → Char → Bool) (text sub : Text) (incl : Bool) (k : Int) (hk : 1 ≤ k)
+    (r : Int) (hr : findIn eq text sub incl k = some r) :
+    (∀ r' : Int, findIn eq text sub incl (k + 1) = some r' →
+        r + stepLen sub ≤ r' ∧
+        ∀ q : Nat, r + stepLen sub ≤ q → (q : Int) < r' → matchAt eq sub (text.drop q) = false) ∧
+    (findIn eq text sub incl (k + 1) = none →
+        ∀ q : Nat, r + stepLen sub ≤ q → q ≤ text.length → matchAt eq sub (text.drop q) = false) := by
+  have hn1 : ∀ ms : List Nat, nth ms k = ms[(k - 1).toNat]? := by
+    intro ms
+    have h1 : k ≥ 1 := hk
+    simp only [nth, h1, if_true]
+  have hn2 : ∀ ms : List Nat, nth ms (k + 1) = ms[(k - 1).toNat + 1]? := by
+    intro ms
+    have e : (k + 1 - 1).toNat = (k - 1).toNat + 1 := by omega
+    have h1 : k + 1 ≥ 1 := by omega
+    simp only [nth, h1, if_true, e]
+  cases incl with
+  | true =>
+    simp only [findIn, Bool.not_true, Bool.false_eq_true, if_false, hn1, hn2] at hr ⊢
+    obtain ⟨a, ha, rfl⟩ := Option.map_eq_some_iff.mp hr
+    obtain ⟨c1, c2⟩ := finditer_chain eq sub text _ a ha
+    constructor
+    · intro r' hr'
+      obtain ⟨b, hb, rfl⟩ := Option.map_eq_some_iff.mp hr'
+      obtain ⟨g1, g2⟩ := c1 b hb
+      exact ⟨by omega, fun q hq1 hq2 => g2 q (by omega) (by omega)⟩
+    · intro hn q hq1 hq2
+      have : (finditer eq sub text)[(k - 1).toNat + 1]? = none := by simpa using hn
+      exact c2 this q (by omega) hq2
+  | false =>
+    simp only [findIn, Bool.not_false, if_true, hn1, hn2] at hr ⊢
+    split at hr
+    · cases hr
+    · rename_i hne
+      simp only [hne, Bool.false_eq_true, if_false]
+      obtain ⟨a, ha, rfl⟩ := Option.map_eq_some_iff.mp hr
+      obtain ⟨c1, c2⟩ := finditer_chain eq sub (text.drop 1) _ a ha
+      have hstep : 1 ≤ stepLen sub := by unfold stepLen; omega
+      have hd : ∀ q : Nat, 1 ≤ q → text.drop q = (text.drop 1).drop (q - 1) := by
+        intro q hq; rw [List.drop_drop]; congr 1; omega
+      constructor
+      · intro r' hr'
+        obtain ⟨b, hb, rfl⟩ := Option.map_eq_some_iff.mp hr'
+        obtain ⟨g1, g2⟩ := c1 b hb
+        refine ⟨by omega, ?_⟩
+        intro q hq1 hq2
+        rw [hd q (by omega)]
+        exact g2 (q - 1) (by omega) (by omega)
+      · intro hn q hq1 hq2
+        have : (finditer eq sub (text.drop 1))[(k - 1).toNat + 1]? = none := by simpa using hn
+        rw [hd q (by omega)]
+        exact c2 this (q - 1) (by omega) (by simp only [List.length_drop]; omega)
+example : findIn (· == ·) ['a', 'a', 'a', 'b', 'a', 'a'] ['a', 'a'] true 1 = some 0 ∧
+    findIn (· == ·) ['a', 'a', 'a', 'b', 'a', 'a'] ['a', 'a'] true 2 = some 4 := by decide
+
 end Ptk.C02
